@@ -174,6 +174,25 @@ def check_case(case):
         for x in check_arc(a, what, case):
             x["route"] = "constructor" if what.startswith("Arc") else "path"
             dis.append(x)
+    if kind == "normal" and rxf != ryf:
+        # the same end points, radii and flags with the x-axis rotation a fraction of a degree off (a float that is not a
+        # whole number): compared with the SVG F.6.5 conversion written out in the harness (pathutil.arc_point)
+        from .pathutil import arc_point
+        for off in (0.5, -0.75, 0.25):
+            r2 = rot + off
+            what = "Arc(%r, %r, %r, %r, %d, %d, %r)" % ((sx, sy), rxf, ryf, r2, fa, fs, (ex, ey))
+            try:
+                a = svg.Arc(svg.Point(sx, sy), rxf, ryf, r2, fa, fs, svg.Point(ex, ey))
+                size = max(rxf, ryf, abs(ex - sx), abs(ey - sy))
+                for t in (0.25, 0.5, 0.75):
+                    q, w = a.point(t), arc_point(sx, sy, rxf, ryf, r2, fa, fs, ex, ey, t)
+                    if abs(q.x - w[0]) > 1e-7 * size or abs(q.y - w[1]) > 1e-7 * size:
+                        dis.append({"clause": "FractionalRotation", "route": "constructor", "detail": "%s: point(%s) = %r, the F.6.5 conversion gives %r" % (what, t, q, w)})
+                        break
+            except engine.CaseTimeout:
+                raise
+            except Exception as e:
+                dis.append({"clause": "Raises", "detail": "%s raised %s: %s" % (what, type(e).__name__, str(e)[:60])})
     for x in dis:
         x["kind"] = kind
     return {"dis": dis, "nontrivial": kind in ("normal", "scaled", "negative"), "class": kind, "checked": ["Endpoints", "Centre", "Extent", "Point", "ReportedEllipse"]}
